@@ -258,6 +258,7 @@ def acknowledgeGroup (s : State) (ack : AckGroup) (rtt : Option Nat) : R (State 
     match ackLoop ack rtt idx s 0 0 false [] with
     | .error t => .error t
     | .ok (s, lst, tot, rl, fr) =>
+      if tot = 0 then .ok (s, fr) else       -- nothing newly acknowledged: no feedback
       let ad : AckData := match s.ackData with
         | some d => { lastSendTime := max d.lastSendTime lst, totalAckSize := d.totalAckSize + tot, rateLimited := d.rateLimited || rl }
         | none => { lastSendTime := lst, totalAckSize := tot, rateLimited := rl }
